@@ -58,6 +58,11 @@ struct Victim {
     route: Route,
     /// the awaited event: (at µs, bytes); None = never
     data: Option<(u64, usize)>,
+    /// reads that complete under the same token before the pending one (their registrations stay in
+    /// the token's registry)
+    warmups: usize,
+    /// use the previous victim's token (fired by that victim's controller)
+    share_token: bool,
 }
 
 fn gen_prog() -> Vec<Victim> {
@@ -70,7 +75,8 @@ fn gen_prog() -> Vec<Victim> {
             2 => Kind::Accept,
             _ => Kind::Multi,
         };
-        let share_prev = kind == Kind::UnixRecv && i > 0 && v[i - 1].kind == Kind::UnixRecv && sim::flip("victim.share", 1, 2);
+        // (a victim with warm-up bytes may leave some of them in its socket: nobody shares that one)
+        let share_prev = kind == Kind::UnixRecv && i > 0 && v[i - 1].kind == Kind::UnixRecv && v[i - 1].warmups == 0 && sim::flip("victim.share", 1, 2);
         let t = |k: &'static str| 1 + sim::range(k, 0, 40);
         let route = match sim::choose("victim.route", 6) {
             0 => Route::None,
@@ -102,7 +108,13 @@ fn gen_prog() -> Vec<Victim> {
             _ if !shared && sim::flip("data.race", 1, 4) => Some((t("data.at"), 1 + sim::range("data.len", 0, 40) as usize)),
             _ => None,
         };
-        v.push(Victim { kind, share_prev, route, data });
+        let token_route = matches!(route, Route::Token { late: false, .. } | Route::FailFast(_));
+        let warmups = if token_route && !share_prev && matches!(kind, Kind::UnixRecv | Kind::PipeRead) { sim::range("victim.warmups", 0, 3) as usize } else { 0 };
+        let (route, share_token) = match (i.checked_sub(1).map(|j| v[j].route), route) {
+            (Some(Route::Token { at, late: false }), Route::Token { late: false, .. }) if sim::flip("victim.share_token", 1, 2) => (Route::Token { at, late: false }, true),
+            _ => (route, false),
+        };
+        v.push(Victim { kind, share_prev, route, data, warmups, share_token });
     }
     v
 }
@@ -150,8 +162,13 @@ fn cancel() -> RunResult {
                 let mut prev_peer: Option<Rc<RefCell<std::os::unix::net::UnixStream>>> = None;
                 // silent peers and accepted-from clients stay open until the run is over
                 let keep: Rc<RefCell<Vec<Box<dyn std::any::Any>>>> = Rc::default();
+                let mut prev_token: Option<CancelToken> = None;
                 for (i, v) in prog.iter().cloned().enumerate() {
-                    let token = CancelToken::new();
+                    let token = match (&prev_token, v.share_token) {
+                        (Some(t), true) => t.clone(),
+                        _ => CancelToken::new(),
+                    };
+                    prev_token = Some(token.clone());
                     let data = payloads[i].clone();
                     // ---- the resource and its peer action
                     enum Res {
@@ -171,6 +188,9 @@ fn cancel() -> RunResult {
                                 prev_sock = Some(sock.clone());
                                 prev_peer = Some(peer.clone());
                             }
+                            if v.warmups > 0 {
+                                let _ = peer.borrow_mut().write_all(&vec![0x57u8; v.warmups]);
+                            }
                             if let Some((at, _)) = v.data {
                                 let d = data.clone();
                                 simkernel::at(Duration::from_micros(at), format!("peer of victim {i} writes {} bytes", d.len()), move || {
@@ -186,6 +206,10 @@ fn cancel() -> RunResult {
                             let (rx, tx) = compio_fs::pipe::anonymous().await.expect("pipe");
                             let fd = tx.as_raw_fd();
                             let d = data.clone();
+                            if v.warmups > 0 {
+                                let w = vec![0x57u8; v.warmups];
+                                unsafe { libc::write(fd, w.as_ptr() as *const libc::c_void, w.len()) };
+                            }
                             match v.data {
                                 Some((at, _)) => simkernel::at(Duration::from_micros(at), format!("writer of victim {i}'s pipe writes {} bytes", d.len()), move || {
                                     unsafe { libc::write(fd, d.as_ptr() as *const libc::c_void, d.len()) };
@@ -223,6 +247,29 @@ fn cancel() -> RunResult {
                         if let Route::Token { late: true, at } = route {
                             // register with a token that has already fired
                             sleep(Duration::from_micros(at + 5)).await;
+                        }
+                        for k in 0..v.warmups {
+                            // completed operations under the same token: their registrations stay behind
+                            let BufResult(r, b) = match &res {
+                                Res::Unix(s) => {
+                                    let mut r = &**s;
+                                    r.read(Vec::with_capacity(1)).with_cancel(tok.clone()).await
+                                }
+                                Res::Pipe(p) => {
+                                    let mut r = p;
+                                    r.read(Vec::with_capacity(1)).with_cancel(tok.clone()).await
+                                }
+                                Res::Listener(_) => unreachable!(),
+                            };
+                            if matches!(&r, Err(e) if e.is_cancelled()) && tok.is_cancelled() {
+                                // the token fired during the warm-ups already
+                                reports_v.borrow_mut()[i] = Some(Report { outcome: Outcome::Cancelled, finished_at: Instant::now() });
+                                return;
+                            }
+                            if !matches!(r, Ok(1)) || b != [0x57] {
+                                errs_v.push("dishonest-result", format!("victim {i}: warm-up read {k} under the token returned {r:?} {b:?}, the peer had written one byte 0x57 for it"));
+                                return;
+                            }
                         }
                         let op = async {
                             match &res {
@@ -288,6 +335,7 @@ fn cancel() -> RunResult {
                                 drop(h);
                             }));
                         }
+                        Route::Token { .. } if v.share_token => handles.push(h),
                         Route::Token { at, .. } | Route::FailFast(at) => {
                             handles.push(h);
                             controllers.push(compio_runtime::spawn(async move {
